@@ -341,11 +341,12 @@ Section Evm.
     let '(auth', s') := evm_step hash valid norm (auth, s) o in evm_wf auth' s'.
   Proof.
     intros Hwf Hop. pose proof Hwf as (Hc & Hs & Hv & Hn).
-    assert (Hcodes : forall code, code <> 0%N -> consistent (<[hash code := code]> (ev_codes s))).
-    { intros code E h c. rewrite lookup_insert_Some. intros [[<- <-]|[_ H]]; [done|by apply Hc]. }
+    assert (Hcodes : forall code, consistent (ev_codes (with_code hash s code))).
+    { intros code h c. unfold with_code; simpl. destruct (code =? 0)%N eqn:E.
+      - rewrite lookup_delete_Some. intros [_ H]. by apply Hc.
+      - apply N.eqb_neq in E. rewrite lookup_insert_Some. intros [[<- <-]|[_ H]]; [done|by apply Hc]. }
     destruct o as [a code|a k|a|a|a k v|a|p]; simpl.
-    - destruct (code =? 0)%N eqn:E; [exact Hwf|]. apply N.eqb_neq in E.
-      destruct (auth !! a) as [[k ch]|] eqn:Ea.
+    - destruct (auth !! a) as [[k ch]|] eqn:Ea.
       + destruct (negb (ch =? hash 0)%N); [exact Hwf|].
         destruct (implements_eth k) eqn:Ek.
         * split; [by apply Hcodes|split; [|done]].
@@ -394,6 +395,52 @@ Section Evm.
     pose proof (evm_step_wf auth s o Hwf Ho) as H.
     destruct (evm_step hash valid norm (auth, s) o) as [auth' s'].
     apply IH; [exact H|exact Hr].
+  Qed.
+
+  (** ** storage survives, whatever the code of the account
+      Every storage slot of every address answers the same after export -> init: InitGenesis
+      runs the SetState loop for every exported account and ExportGenesis lists every account
+      that can hold storage. *)
+  Theorem evm_storage_survives auth s :
+    evm_wf auth s ->
+    exists s', evm_init hash valid norm auth (evm_export auth s) = Some s' /\
+      (forall a, stor s' a = stor s a) /\
+      (forall a k, evm_ask auth (EvQStorage a k) s' = evm_ask auth (EvQStorage a k) s) /\
+      (forall a, evm_ask auth (EvQAccountStorage a) s' = evm_ask auth (EvQAccountStorage a) s).
+  Proof.
+    intros Hwf. destruct (evm_init_export_projection auth s Hwf) as (s' & Hi & _ & Hst & _).
+    exists s'. split; [done|]. split; [done|]. split; intros a; [intros k|]; simpl; by rewrite Hst.
+  Qed.
+
+  (** ... stated separately for an address WITHOUT code (the empty code hash, or a hash without a
+      stored code): such an account is not necessarily an externally owned account -- a creation
+      whose constructor stores and returns no code leaves exactly this -- and its slots come back:
+      the re-imported state has the same storage there, still no code, every stored slot answers
+      its value, and the second document lists the account with code "" and the same storage. *)
+  Theorem evm_codeless_storage_survives auth s a :
+    evm_wf auth s -> code_at auth s a = 0%N ->
+    exists s', evm_init hash valid norm auth (evm_export auth s) = Some s' /\
+      code_at auth s' a = 0%N /\
+      stor s' a = stor s a /\
+      (forall k v, stor s a !! k = Some v -> evm_ask auth (EvQStorage a k) s' = EvAO (Some v)) /\
+      evm_export auth s' = evm_export auth s /\
+      (stor s a <> ∅ ->
+       mk_ea a 0%N (export_map (stor s a)) ∈ vg_accounts (evm_export auth s) /\
+       mk_ea a 0%N (export_map (stor s a)) ∈ vg_accounts (evm_export auth s')).
+  Proof.
+    intros Hwf Hcode.
+    pose proof (evm_export_init_export auth s Hwf) as Hee.
+    destruct (evm_init_export_projection auth s Hwf) as (s' & Hi & _ & Hst & Hcd).
+    rewrite Hi in Hee. change (Some (evm_export auth s') = Some (evm_export auth s)) in Hee.
+    apply (inj Some) in Hee.
+    exists s'. split; [done|]. split; [by rewrite Hcd|]. split; [done|].
+    split; [intros k v Hk; simpl; by rewrite Hst, Hk|]. split; [done|].
+    intros Hne. rewrite Hee.
+    assert (mk_ea a 0%N (export_map (stor s a)) ∈ vg_accounts (evm_export auth s)) as Hin; [|done].
+    destruct Hwf as (_ & Hs & _). destruct (Hs _ Hne) as (k & ch & Ha & Hk).
+    unfold evm_export, evm_export_sel; simpl. fold (exp_accs implements_eth auth s).
+    apply elem_of_exp_accs. exists a, k, ch. split; [done|]. split; [done|].
+    unfold code_at in Hcode. rewrite Ha, Hk in Hcode. by rewrite Hcode.
   Qed.
 
   Lemma evm_wf_empty p : valid p = true -> norm p = p -> evm_wf ∅ (mk_evm p ∅ ∅).
@@ -492,4 +539,73 @@ Proof.
     + intros H. apply (f_equal (fun m : gmap N N => m !! 0%N)) in H. vm_compute in H. discriminate.
     + vm_compute in Ha. injection Ha as <- <-. discriminate.
   - vm_compute. repeat split; reflexivity.
+Qed.
+
+(** Accounts WITHOUT code and WITH storage.  A contract creation whose constructor executes SSTORE and
+    then returns zero-length code (RETURN(0,0), or STOP: init code 602a60005500) leaves an account with
+    nonce 1, the empty code hash and live storage (StateDB.Commit: SetCode deletes under the empty hash,
+    SetAccount, then SetState for the dirty slots) -- on a fresh address (4), and on a clawback vesting
+    account created ahead of the deployment (6, two slots).  5 is the control: the same constructor
+    returning one byte of code.  1 is an externally owned account. *)
+Definition codeless_ops : list evm_op :=
+  [EvCreate 4 0; EvSStore 4 0 42;
+   EvNewAcc 6 KClawback; EvCreate 6 0; EvSStore 6 0 42; EvSStore 6 1 7;
+   EvCreate 5 1; EvSStore 5 0 42;
+   EvNewAcc 1 KEth]%N.
+Definition codeless_run : gmap N auth_acc * evm_state := fold_left toy_step codeless_ops (∅, mk_evm 0 ∅ ∅).
+
+Lemma codeless_run_wf : evm_wf toy_hash (fun _ => true) (fun p => p) codeless_run.1 codeless_run.2.
+Proof.
+  apply (evm_run_wf toy_hash (fun _ => true) (fun p => p) (fun _ => eq_refl) codeless_ops (∅, mk_evm 0 ∅ ∅)).
+  - by apply evm_wf_empty.
+  - vm_compute. reflexivity.
+Qed.
+
+(** non-vacuity of [evm_codeless_storage_survives]: the state is reachable by [run_ok] operations,
+    satisfies the invariant, address 4 has no code and the slot 0 -> 42, which is exported and comes back *)
+Lemma evm_codeless_nonvacuous_lemma :
+  let v := fun _ : N => true in let nm := fun p : N => p in
+  let auth := codeless_run.1 in let s := codeless_run.2 in
+  run_ok toy_hash v nm (∅, mk_evm 0 ∅ ∅) codeless_ops = true /\
+  evm_wf toy_hash v nm auth s /\
+  auth !! 4%N = Some (KEth, toy_hash 0) /\ auth !! 6%N = Some (KClawback, toy_hash 0) /\
+  code_at auth s 4 = 0%N /\ code_at auth s 6 = 0%N /\ code_at auth s 5 = 1%N /\
+  stor s 4 !! 0%N = Some 42%N /\ stor s 4 <> ∅ /\
+  evm_export auth s
+    = mk_evmg 0 [mk_ea 1 0 []; mk_ea 4 0 [(0, 42)]; mk_ea 5 1 [(0, 42)]; mk_ea 6 0 [(0, 42); (1, 7)]]%N /\
+  (evm_ask auth (EvQStorage 4 0) <$> evm_init toy_hash v nm auth (evm_export auth s)) = Some (EvAO (Some 42%N)) /\
+  (evm_ask auth (EvQAccountStorage 6) <$> evm_init toy_hash v nm auth (evm_export auth s))
+    = Some (EvAL [(0, 42); (1, 7)]%N) /\
+  (evm_export auth <$> evm_init toy_hash v nm auth (evm_export auth s)) = Some (evm_export auth s).
+Proof.
+  cbv zeta. split; [by vm_compute|]. split; [exact codeless_run_wf|].
+  assert (Hne : stor codeless_run.2 4 <> ∅).
+  { intros H. apply (f_equal (fun m : gmap N N => m !! 0%N)) in H. vm_compute in H. discriminate. }
+  repeat split; try exact Hne; vm_compute; reflexivity.
+Qed.
+
+(** The shape of the seeded defect: an InitGenesis that skips the exported accounts with empty code
+    ("externally owned accounts have no code or storage to restore").  On the witness state the first
+    document is the same (ExportGenesis is untouched), but the skipping import drops the slots of 4 and
+    of 6 -- the Storage query answers nothing where the exporting chain answers 42, the second document
+    lists both accounts with an empty storage list, so export o init o export <> export -- while the
+    control 5 (one byte of code) keeps its slot, and InitGenesis as it is keeps all of them. *)
+Lemma evm_skip_codeless_refuted_lemma :
+  let v := fun _ : N => true in let nm := fun p : N => p in
+  let auth := codeless_run.1 in let s := codeless_run.2 in
+  evm_wf toy_hash v nm auth s /\
+  code_at auth s 4 = 0%N /\
+  evm_ask auth (EvQStorage 4 0) s = EvAO (Some 42%N) /\
+  (evm_ask auth (EvQStorage 4 0) <$> evm_init_skip_codeless toy_hash v nm auth (evm_export auth s)) = Some (EvAO None) /\
+  (evm_ask auth (EvQStorage 6 1) <$> evm_init_skip_codeless toy_hash v nm auth (evm_export auth s)) = Some (EvAO None) /\
+  (evm_ask auth (EvQStorage 5 0) <$> evm_init_skip_codeless toy_hash v nm auth (evm_export auth s)) = Some (EvAO (Some 42%N)) /\
+  (evm_export auth <$> evm_init_skip_codeless toy_hash v nm auth (evm_export auth s))
+    = Some (mk_evmg 0 [mk_ea 1 0 []; mk_ea 4 0 []; mk_ea 5 1 [(0, 42)]; mk_ea 6 0 []]%N) /\
+  (evm_export auth <$> evm_init_skip_codeless toy_hash v nm auth (evm_export auth s)) <> Some (evm_export auth s) /\
+  (evm_ask auth (EvQStorage 4 0) <$> evm_init toy_hash v nm auth (evm_export auth s)) = Some (EvAO (Some 42%N)) /\
+  (evm_export auth <$> evm_init toy_hash v nm auth (evm_export auth s)) = Some (evm_export auth s).
+Proof.
+  cbv zeta. split; [exact codeless_run_wf|].
+  repeat split; try (vm_compute; reflexivity).
+  vm_compute. discriminate.
 Qed.
